@@ -696,9 +696,17 @@ class CphotAng:
             return np.empty([]), np.empty([])
 
         #######################
+        def run_event(x):
+            try:
+                return self.run(*x, cloudf)
+            except StopIteration as e:
+                # A StopIteration escaping into the lazily mapped partition would end
+                # it early and silently drop the remaining events (cf. PEP 479).
+                raise RuntimeError("StopIteration raised while evaluating a shower") from e
+
         b = db.from_sequence(
             zip(betaE, alt, Eshow100PeV, init_lat, init_long), partition_size=100
         )
         with ProgressBar():
-            Dphots, Cang = zip(*b.map(lambda x: self.run(*x, cloudf)).compute())
+            Dphots, Cang = zip(*b.map(run_event).compute())
         return np.asarray(Dphots), np.array(Cang)
